@@ -642,7 +642,7 @@ func main() {
 		}
 		// witnesses for translation validation
 		for name, m := range r.ReachModel {
-			if !strings.HasPrefix(name, "reach:") || witnessBudget <= 0 {
+			if !strings.HasPrefix(name, "reach:") || witnessBudget <= 0 || r.Cancelled {
 				continue
 			}
 			witnessBudget--
